@@ -1937,9 +1937,10 @@ def skel_gauss_NewCalculator : List String := [
   "}",
   "v12 := v7.CDF(float64(v5-v2)) - v7.CDF(0)",
   "v6 /= v12",
-  "if math.IsNaN(v6) || math.IsInf(v6, 0) || v9 == 0 || math.IsNaN(v9) {",
+  "if math.IsNaN(v6) || math.IsInf(v6, 0) || v9 == 0 || math.IsNaN(v9) || math.IsInf(v9, 0) {",
   "return nil, errors.New(\"gaussian: no rate can be derived: the repeat window covers none of the \" +",
-  "\"distribution (move the peak inside the window or increase the standard deviation) or the weights sum to zero\")",
+  "\"distribution (move the peak inside the window or increase the standard deviation) or the weights sum to zero \" +",
+  "\"or are not finite\")",
   "}",
   "return &Calculator{",
   "frequency: v2,",
